@@ -133,4 +133,37 @@ def startCalls (ms : List Mod) : List (Mod × Nat) :=
 /-- `SimLifecycle::at_sim_end`: every module of the vector, in order -/
 def endCalls (ms : List Mod) : List Mod := ms
 
+/-! ### tear-down of the module tree (drop of `Sim` → `Globals` → `ModuleTree.modules`)
+
+A `ModuleRef` is a pair of `Arc`s (`ctx`, `processing`); its clones live in the module vector and in
+the parent's `children` map (`ModuleContext::child_of`); the parent pointer is weak.  Dropping the
+last clone of a module first drops its `ModuleContext` (and with it its children map, i.e. one clone
+of every child) and then its `Processor`, i.e. the user's module state.  `Vec` drops its elements
+front to back. -/
+
+structure DropSt where
+  /-- live strong references per module id -/
+  rc : Nat → Nat
+  /-- module states dropped so far, in order -/
+  out : List Nat
+
+/-- number of `ModuleRef` clones of module `id` held by the tree -/
+def refCount (b : Builder) (id : Nat) : Nat :=
+  (b.mods.filter (fun m => m.id == id)).length + (b.kids.filter (fun k => k.2.2 == id)).length
+
+/-- drop one clone of module `id` (fuel bounds the nesting of cascading drops) -/
+def release (kids : List (Nat × List Nat × Nat)) : Nat → DropSt → Nat → DropSt
+  | 0, st, _ => st
+  | fuel + 1, st, id =>
+    if st.rc id = 1 then
+      -- last clone: drop the context (children map), then the module state
+      let st1 : DropSt := { st with rc := fun x => if x = id then 0 else st.rc x }
+      let st2 := (kids.filter (fun k => k.1 == id)).foldl (fun st k => release kids fuel st k.2.2) st1
+      { st2 with out := st2.out ++ [id] }
+    else { st with rc := fun x => if x = id then st.rc id - 1 else st.rc x }
+
+/-- ids of the modules in the order in which their states are dropped when the tree is dropped -/
+def teardown (b : Builder) : List Nat :=
+  (b.mods.foldl (fun st m => release b.kids (b.mods.length + 1) st m.id) ⟨refCount b, []⟩).out
+
 end ModTree
